@@ -72,7 +72,8 @@ Definition bind {A B} (r : res A) (f : A -> res B) : res B :=
 Inductive guard :=
 | GAny
 | GRange (lo hi : Z) (lo_strict hi_strict : bool)   (* lo <(=) v <(=) hi, else ValueError *)
-| GAbove (lo : Z) (strict : bool).                  (* lo <(=) v *)
+| GAbove (lo : Z) (strict : bool)                   (* lo <(=) v *)
+| GLen (n : Z).                                     (* len(v) == n, else ValueError; no len() -> TypeError *)
 
 Inductive mkind :=
 | KProp (settable : bool) (g : guard)   (* class-level property (data descriptor) *)
@@ -193,6 +194,12 @@ Definition guard_check (g : guard) (v : pyval) : option exn :=   (* None = accep
       | Some (m, e) => if lo_ok m e lo ls then None else Some ValueError
       | None => Some TypeError
       end
+  | GLen n =>
+      match v with
+      | VList l | VTuple l => if Z.eqb (Z.of_nat (List.length l)) n then None else Some ValueError
+      | VStr s => if Z.eqb (Z.of_nat (String.length s)) n then None else Some ValueError
+      | _ => Some TypeError
+      end
   end.
 
 (* the guard of a property setter, looked up in the table regenerated from the source (Gen_C08.src_setter_guards):
@@ -207,6 +214,7 @@ Fixpoint guard_of (tbl : list (string * string * guard)) (cls fld : string) : gu
 Definition guard_inhabited (g : guard) : bool :=
   match g with
   | GAny | GAbove _ _ => true
+  | GLen n => (0 <=? n)%Z
   | GRange lo hi ls hs => if ls && hs then (lo <? hi)%Z else if ls || hs then (lo <? hi)%Z else (lo <=? hi)%Z
   end.
 
